@@ -27,7 +27,7 @@ mutual
 end
 
 /-- what visiting a statement's own expressions may record: walrus targets (reached by generic_visit, or all of them in the repaired variant) -/
-def exprAdds (es : Exprs) : List Name := allWL es ++ vWL es
+def exprAdds (es : Exprs) : List Name := allWL es ++ wAnyL es
 
 mutual
   def topAdds : Stmt → List Name
@@ -304,11 +304,14 @@ theorem shape_header (env : Env) (c : Ctxs) (es : Exprs) (ws ys : List Name) (hw
     Shape (exprAdds es ++ ys) [] (xEs env [] ((preW env c ws).addTop ys) es).2 c := by
   subst hws
   rw [xEs_ctx]
-  have h := ((Shape.preW env c (allWL es)).trans (Shape.addTop _ ys)).trans (Shape.addTop _ (vWL es))
+  have h := ((Shape.preW env c (allWL es)).trans (Shape.addTop _ ys)).trans (Shape.addTop _ (vWL env.fx.lam env.fx.comp [] es))
   refine h.mono ?_ (fun _ hx => by simpa using hx)
   intro x hx
   simp only [exprAdds, List.mem_append] at hx ⊢
-  grind
+  rcases hx with (h | h) | h
+  · exact Or.inl (Or.inl h)
+  · exact Or.inr h
+  · exact Or.inl (Or.inr (vWL_sub_wAnyL _ _ es [] x h))
 
 theorem impAdds_sub (fx : Fixes) : ∀ (items : List ImpItem) (x : Name), x ∈ impAdds fx items → x ∈ impAdds Fixes.all items
   | [], x, hx => by simp [impAdds] at hx
@@ -381,8 +384,8 @@ theorem runS_shape (env : Env) : ∀ (s : Stmt) (st : St), Shape (topAdds s) (gl
       refine ((Shape.preW env st.c _).trans (Shape.addTop _ [f])).mono ?_ (fun _ h => by simpa using h)
       intro x hx; simp only [List.mem_append, List.mem_cons, List.mem_singleton] at hx ⊢; grind
     -- inside: parameters, defaults, body, decorators — all in the pushed context
-    have h1 := Shape.addTop (((preW env st.c (allWL (dfl.append decos))).addTop [f]).push.addTop ps) (vWL dfl)
-    rw [← xEs_ctx env [] _ dfl] at h1
+    have h1 := Shape.addTop (((preW env st.c (allWL (dfl.append decos))).addTop [f]).push.addTop ps) (vWL env.fx.lam env.fx.comp [] dfl)
+    rw [← xEs_ctx env dfl [] _] at h1
     have hb := runL_shape env body
       { st with c := (xEs env [] (((preW env st.c (allWL (dfl.append decos))).addTop [f]).push.addTop ps) dfl).2,
                 s := ((st.s.bind (allWL (dfl.append decos))).bind [f]).push ps,
@@ -390,8 +393,8 @@ theorem runS_shape (env : Env) : ∀ (s : Stmt) (st : St), Shape (topAdds s) (gl
     have h2 := Shape.addTop (runL env
       { st with c := (xEs env [] (((preW env st.c (allWL (dfl.append decos))).addTop [f]).push.addTop ps) dfl).2,
                 s := ((st.s.bind (allWL (dfl.append decos))).bind [f]).push ps,
-                g := st.g && gHeader env.fx (dfl.append decos) } body).2.c (vWL decos)
-    rw [← xEs_ctx env [] _ decos] at h2
+                g := st.g && gHeader env.fx (dfl.append decos) } body).2.c (vWL env.fx.lam env.fx.comp [] decos)
+    rw [← xEs_ctx env decos [] _] at h2
     have hin := (h1.trans hb).trans h2
     have hout := Shape.scope ps hin
     exact (h0.trans hout).mono (fun _ h => by simpa using h) (fun _ h => by simpa using h)
@@ -402,8 +405,8 @@ theorem runS_shape (env : Env) : ∀ (s : Stmt) (st : St), Shape (topAdds s) (gl
       intro x hx; simp only [List.mem_append, List.mem_cons, List.mem_singleton] at hx ⊢; grind
     have hp : ((preW env st.c (allWL (bases.append decos))).addTop [cn]).push =
         ((preW env st.c (allWL (bases.append decos))).addTop [cn]).push.addTop [] := (addTop_nil _).symm
-    have h1 := Shape.addTop (((preW env st.c (allWL (bases.append decos))).addTop [cn]).push.addTop []) (vWL bases)
-    rw [← hp, ← xEs_ctx env [] _ bases] at h1
+    have h1 := Shape.addTop (((preW env st.c (allWL (bases.append decos))).addTop [cn]).push.addTop []) (vWL env.fx.lam env.fx.comp [] bases)
+    rw [← hp, ← xEs_ctx env bases [] _] at h1
     rw [hp] at h1
     have hb := runL_shape env body
       { st with c := (xEs env [] ((preW env st.c (allWL (bases.append decos))).addTop [cn]).push bases).2,
@@ -412,8 +415,8 @@ theorem runS_shape (env : Env) : ∀ (s : Stmt) (st : St), Shape (topAdds s) (gl
     have h2 := Shape.addTop (runL env
       { st with c := (xEs env [] ((preW env st.c (allWL (bases.append decos))).addTop [cn]).push bases).2,
                 s := ((st.s.bind (allWL (bases.append decos))).bind [cn]).push [],
-                g := st.g && gHeader env.fx (bases.append decos) } body).2.c (vWL decos)
-    rw [← xEs_ctx env [] _ decos] at h2
+                g := st.g && gHeader env.fx (bases.append decos) } body).2.c (vWL env.fx.lam env.fx.comp [] decos)
+    rw [← xEs_ctx env decos [] _] at h2
     have hin := (h1.trans hb).trans h2
     have hout := Shape.scope [] hin
     exact (h0.trans hout).mono (fun _ h => by simpa using h) (fun _ h => by simpa using h)
